@@ -53,6 +53,8 @@ FIXED.update({
  "lexer errors (bad escape sequence, unrecognized character) pointed at the wrong text": ("C33", 'println("\\qab") underlines bytes 0..2 of the file'),
 })
 OPEN = [
+ ("C04", "root:cyclic-type-unionfind-borrow", "cyclic type: `fn foo(a: int, b) { foo + b }` (a function used as an operand of its own body) makes the union-find re-borrow itself: RefCell already borrowed (no occurs check in the unifier)"),
+ ("C34", "root:cyclic-type-unionfind-borrow", "cyclic type: `fn foo(a: int, b) { foo + b }` panics the analysis behind the editor queries: RefCell already borrowed (no occurs check in the unifier)"),
  ("C01", "root:jump-out-of-operand:break", "`break` inside a block used as an operand (e.g. `id(100) + { while .. { acc += id(7) + { if c { break }; 1 } }; acc }`) compiles to a bare jump that leaves the pending operands on the stack: wrong results (23 instead of 116), type-tag faults or operand-stack leaks; confined to the S-jump stratum (`return` and `?` in the same positions are correct)"),
  ("C01", "root:jump-out-of-operand:continue", "`continue` inside a block used as an operand (e.g. `id(100) + { while .. { acc += id(7) + { if c { continue }; 1 } }; acc }`) compiles to a bare jump that leaves the pending operands on the stack: wrong results (23 instead of 116), type-tag faults or operand-stack leaks; confined to the S-jump stratum (`return` and `?` in the same positions are correct)"),
  ("C02", "root:jump-out-of-operand:break", "`break` inside a block used as an operand (e.g. `id(100) + { while .. { acc += id(7) + { if c { break }; 1 } }; acc }`) compiles to a bare jump that leaves the pending operands on the stack: wrong results (23 instead of 116), type-tag faults or operand-stack leaks; confined to the S-jump stratum (`return` and `?` in the same positions are correct)"),
